@@ -182,6 +182,24 @@ example : parseInt64 (fmtInt (-9223372036854775808)) = some (-922337203685477580
   exact parseInt64_fmtInt _ (by constructor <;> decide)
 example : IsI64 9223372036854775807 := by constructor <;> decide
 
+/-- What `node.NewType` accepts holds no angle bracket (fix d18ea1b): `NodeOK.tyNoLt` is true of every node that can be built. -/
+theorem accepted_node_type_has_no_angle_bracket (t : Bytes) (h : validType t = true) : lt ∉ t ∧ gt ∉ t := by
+  simp only [validType, Bool.and_eq_true, Bool.not_eq_true'] at h
+  have h2 := h.2
+  unfold containsAny at h2
+  constructor
+  · intro hm
+    have : t.any (fun c => [lt, gt].contains c) = true := List.any_eq_true.mpr ⟨lt, hm, by decide⟩
+    rw [this] at h2; cases h2
+  · intro hm
+    have : t.any (fun c => [lt, gt].contains c) = true := List.any_eq_true.mpr ⟨gt, hm, by decide⟩
+    rw [this] at h2; cases h2
+
+/-- A node whose type and ID the constructors accept round-trips: nothing else is asked of it. -/
+theorem constructed_node_round_trips (n : Node) (hty : validType n.ty = true) (hid : validID n.id = true) :
+    parseNode (printNode n) = some n :=
+  node_round_trip n ⟨hty, (accepted_node_type_has_no_angle_bracket n.ty hty).1, hid⟩
+
 end BW.Props.C05
 
 #print axioms BW.Props.C05.node_round_trip
@@ -199,3 +217,5 @@ end BW.Props.C05
 #print axioms BW.Props.C05.triple_print_stable
 #print axioms BW.Props.C05.predicate_print_stable
 #print axioms BW.Props.C05.toyLeaf_laws
+#print axioms BW.Props.C05.accepted_node_type_has_no_angle_bracket
+#print axioms BW.Props.C05.constructed_node_round_trips
